@@ -768,6 +768,11 @@ class Env:
         self.tick_reaped = [w.status for w in self.workers.values()
                             if not w.alive and w.vp.state == 'zombie' and
                             w.pid in [p.pid for p in pool._pool]]
+        self.tick_reaped_ctl = [
+            bool(getattr(p, '_controlled_termination', False))
+            for p in pool._pool
+            if not self.workers[p.pid].alive and
+            self.workers[p.pid].vp.state == 'zombie']
         live = len(pool._pool) - len(self.tick_reaped)
         self.tick_missing = pool._processes - live
         if pool._worker_handler._state == bp.RUN and pool._state == bp.RUN:
